@@ -48,13 +48,15 @@ Proof.
     { unfold ea. eapply pre_trans; [|apply pre_kind_init]. eapply pre_trans; [apply (pre_tmod e i) | apply pre_set_state]. }
     destruct (exn ea); [exact Xa|]. destruct (negb _); [eapply pre_trans; [exact Xa | apply pre_emit] | exact Xa]. }
   destruct (exn e1); [exact X1|].
+  match goal with |- pre e (if nkind_beq (kind ?E1' i) KAct && _ && _ then _ else _) => set (e1' := E1') end.
+  assert (X1' : pre e e1').
+  { unfold e1'. destruct (is (st e1 i) SPending); [|exact X1]. pose proof (pre_is_ready e1 i) as Hr. destruct (is_ready e1 i) as [rdy ea]. cbn [snd] in Hr.
+    destruct rdy; [|eapply pre_trans; eauto]. eapply pre_trans; [exact X1|]. eapply pre_trans; [exact Hr|]. eapply pre_trans; [apply pre_set_state | apply pre_emit]. }
+  destruct (nkind_beq (kind e1' i) KAct && is (st e1' i) SReady && is_fail (sp_u (n_spec (tnode e1' i)))).
+  { eapply pre_trans; [exact X1'|]. eapply pre_trans; [apply pre_set_state | now apply pre_eq]. }
   match goal with |- pre e (next f cv ?E2 i) => set (e2 := E2) end.
   assert (X2 : pre e e2).
   { unfold e2.
-    match goal with |- pre e (if is (st ?E1' i) SReady then _ else _) => set (e1' := E1') end.
-    assert (X1' : pre e e1').
-    { unfold e1'. destruct (is (st e1 i) SPending); [|exact X1]. pose proof (pre_is_ready e1 i) as Hr. destruct (is_ready e1 i) as [rdy ea]. cbn [snd] in Hr.
-      destruct rdy; [|eapply pre_trans; eauto]. eapply pre_trans; [exact X1|]. eapply pre_trans; [exact Hr|]. eapply pre_trans; [apply pre_set_state | apply pre_emit]. }
     destruct (is (st e1' i) SReady); [|exact X1'].
     set (er := set_state 7 e1' i SRunning). assert (Xr : pre e er) by (eapply pre_trans; [exact X1' | apply pre_set_state]).
     eapply pre_trans; [|apply pre_emit]. eapply pre_trans; [exact Xr|].
